@@ -13,7 +13,7 @@ RULE = ("exhaustive product, both tiers: {cookie absent, each configured name, i
         "Accept-Language headers (none, empty, single, lists with and without a space after the comma, q-values that do "
         "not change the order, unsupported, malformed, wildcard) x {main context, the generated <I18nContextProvider> component with its "
         "html-attribute props unset / true / false, resolve_locale_with_options alone and under an already provided context showing another locale, "
-        "sub-context without parent, sub-context under a parent showing each locale} x {initial locale given or not}; "
+        "sub-context without parent, sub-context under a parent showing each locale, the <I18nSubContextProvider> component alone and after a sibling provider showing another locale} x {initial locale given or not}; "
         "non-trivial = a cookie is present in the request or the header has at least one entry; distinct = distinct cases")
 
 DEFAULT_COOKIE = "i18n_pref_locale"
@@ -134,6 +134,14 @@ def gen_cases(ctx, names):
                         if sl is not None:
                             c["set_lang"] = sl
                         cases.append(c)
+                    # the <I18nSubContextProvider> component, alone and after a sibling provider showing another locale
+                    for (parent, init, sib) in ((None, None, None), ("de", None, "fr"), ("fr-CA", None, "en-US"), ("de", "fr", "en"), (None, None, "fr")) \
+                            if ctx.quick else [(pa, i, sb) for pa in [None] + list(names) for i in (None, "fr") for sb in (None, "fr", "en-US")]:
+                        c = {"kind": "sub_component", "cookie_header": ch, "enable_cookie": enabled, "cookie_name": cname,
+                             "accept_language": hdr, "parent": parent, "initial": init, "_cookie": clabel.split(":")[0], "_name": nlabel}
+                        if sib is not None:
+                            c["sibling"] = sib
+                        cases.append(c)
                     for a in ambients:
                         cases.append({"kind": "fn", "cookie_header": ch, "enable_cookie": enabled, "cookie_name": cname,
                                       "accept_language": hdr, "parent": None, "initial": None, "ambient": a,
@@ -144,7 +152,7 @@ def gen_cases(ctx, names):
 def lean_request(case, impl, names, avail, table, idx):
     hdr = case["accept_language"]
     needed = set(leptos_use_entries(hdr)) | {e.strip(" \t\n\x0c\r") for e in leptos_use_entries(hdr)} | set(rfc_entries(hdr))
-    return {"op": "ctx.resolve", "kind": "root" if case["kind"] == "component" else case["kind"], "names": names, "avail": avail, "default": 0,
+    return {"op": "ctx.resolve", "kind": {"component": "root", "sub_component": "sub"}.get(case["kind"], case["kind"]), "names": names, "avail": avail, "default": 0,
             "feature_cookie": True, "cookie_flag": case["enable_cookie"], "jar_value": impl["cookie_seen"],
             "header": hdr, "parse": [[s, table[s]] for s in sorted(needed)], "spec_accepted": rfc_entries(hdr),
             "initial": None if case["initial"] is None else idx[case["initial"]],
@@ -234,7 +242,7 @@ def run(ctx):
         ctx.count("name=" + c["_name"])
         ctx.count("tier=" + m["spec_tier"])
         ctx.count("cookies_enabled" if c["enable_cookie"] else "cookies_disabled")
-        if c["kind"] == "sub":
+        if c["kind"] in ("sub", "sub_component"):
             ctx.count("sub:" + ("parent" if c["parent"] else "no-parent") + "," + ("initial" if c["initial"] else "no-initial"))
         if m["model"] != m["model_no_trim"]:
             ctx.count("trimming_of_header_entries_matters")
